@@ -140,6 +140,10 @@ Definition sites_statement : Prop :=
   (* #[ghosts(name: {expr})] on the Into side *)
   (forall g i c, gd_ident g = GMember (MNamed i) -> is_intoish (c_kind c) = true -> c_post_init c = false ->
      render_ghost_line g c = Ok ([TIdent i; P1 ":"] ++ quote_action (gd_action g) None c ++ [comma])) /\
+  (* ... and in the assignment-style body a bare #[parent] forces: `obj.<path>.<member> = value;` *)
+  (forall g m c, gd_ident g = GMember m -> is_intoish (c_kind c) = true -> c_post_init c = true ->
+     render_ghost_line g c = Ok ([TIdent "obj"; dot] ++ (match gd_path g with Some p => print_member_path p ++ [dot] | None => [] end) ++
+                                 [member_tok m; P1 "="] ++ quote_action (gd_action g) None c ++ [semi])) /\
   (* nested [instr(expr)] inside #[parent(..)] *)
   (forall p k at_ act fp c o, get_for_kind p k = Some at_ -> pf_action at_ = Some act ->
      get_action_or (AParentChild p k) fp c o = Ok (quote_action act fp c)).
@@ -153,5 +157,6 @@ Proof.
   - intros mc act obj fpath c o Hm Ha. cbn [get_stuff]. rewrite Hm, Ha. reflexivity.
   - intros g act obj fpath c o H. cbn [get_stuff]. rewrite H. reflexivity.
   - intros g i c Hi Hk Hp. unfold render_ghost_line. rewrite Hi, Hk, Hp. reflexivity.
+  - intros g m c Hi Hk Hp. unfold render_ghost_line. rewrite Hi, Hk, Hp. reflexivity.
   - intros p k at_ act fp c o Hg Ha. cbn [get_action_or]. rewrite Hg, Ha. reflexivity.
 Qed.
